@@ -246,6 +246,33 @@ func countFloatSignificantDigits(str string) (count uint) {
 	return count
 }
 
+// Check a decimal float literal (no sign): written exponent - fraction digits,
+// plus whatever trailing zeros of the coefficient are later folded into it,
+// must lie within the range of a 32-bit exponent (whose minimum is reserved).
+func isDecimalExponentInRange(str string) bool {
+	coefficient := str
+	exponent := int64(0)
+	if index := strings.IndexAny(str, "eE"); index >= 0 {
+		coefficient = str[:index]
+		var err error
+		if exponent, err = strconv.ParseInt(str[index+1:], 10, 64); err != nil {
+			return false
+		}
+	}
+	digits := coefficient
+	if index := strings.IndexByte(coefficient, '.'); index >= 0 {
+		exponent -= int64(len(coefficient) - index - 1)
+		digits = coefficient[:index] + coefficient[index+1:]
+	}
+	withoutTrailingZeros := strings.TrimRight(digits, "0")
+	if len(withoutTrailingZeros) == 0 {
+		// Zero, whatever its exponent says
+		return exponent > math.MinInt32 && exponent <= math.MaxInt32
+	}
+	trailingZeroCount := int64(len(digits) - len(withoutTrailingZeros))
+	return exponent > math.MinInt32 && exponent+trailingZeroCount <= math.MaxInt32
+}
+
 func countDecimalSignificantDigits(str string) (count int) {
 	for _, ch := range str {
 		if ch == 'e' || ch == 'E' {
@@ -289,6 +316,13 @@ func (_this *cteListener) ExitValueFloat(ctx *parser.ValueFloatContext) {
 		} else {
 			panic(err)
 		}
+	}
+
+	// The exponent of the coefficient taken as a whole number must fit 32 bits
+	// (the decimal float types compute it without a check: it wraps around, or
+	// lands on the value that marks NaN and infinity)
+	if !isDecimalExponentInRange(strNoSign) {
+		panic(fmt.Errorf("%v: exponent out of range", str))
 	}
 
 	// A coefficient of more than 19 digits cannot fit in a DFloat (and DFloatFromString
